@@ -34,7 +34,10 @@
 (*                             already acknowledged is never sent again"    *)
 (*                             (DESIGN 6: any restart counts as a crash)    *)
 (* IdentifiersOwn              "Records carry the session's own             *)
-(*                             identifiers"                                 *)
+(*                             identifiers" (every identifying attribute a  *)
+(*                             record carries is the session's; a Stop or   *)
+(*                             Interim carries at least the attributes the  *)
+(*                             session's accepted Start carried)            *)
 (* CountersExact               "report 64-bit traffic counters exactly      *)
 (*                             through the low-word/gigaword split":        *)
 (*                             gigawords*2^32 + low word, limb by limb, is  *)
@@ -63,6 +66,7 @@ G0(cfg) == [ called   |-> {},      \* StartSession invoked
              fin      |-> [s \in Sess(cfg) |-> {Zero4}],   \* octet values the counter source reported
              fout     |-> [s \in Sess(cfg) |-> {Zero4}],
              refused  |-> [k \in Kinds \X Sess(cfg) |-> 0],
+             attrs    |-> [s \in Sess(cfg) |-> {}],       \* identifying attributes the session's accepted Start carried
              over     |-> FALSE ]  \* unreachability exceeded the retry budget
 
 \* the gigaword split: octets = gigawords * 2^32 + low word; in 16-bit limbs (least significant
@@ -77,6 +81,12 @@ IdentOK(cfg, e) == /\ e.sid \in Sess(cfg)
                    /\ e.port \in {0, e.sid}
                    /\ e.class \in {0, e.sid}
 
+\* which of the optional identifying attributes a record carries
+Carried(e) == {a \in {"mac", "ip", "port", "class"} :
+                 (a = "mac" /\ e.mac = e.sid) \/ (a = "ip" /\ e.ip = e.sid) \/ (a = "port" /\ e.port = e.sid) \/ (a = "class" /\ e.class = e.sid)}
+\* a later record of the session identifies it at least as its accepted Start did
+SameIdent(cfg, g, e) == (e.sid \in Sess(cfg) /\ e.typ \in {"stop", "interim"}) => g.attrs[e.sid] \subseteq Carried(e)
+
 CountersOK(cfg, g, e) == e.sid \in Sess(cfg) =>
                            /\ LimbsOK(e.in_lo) /\ LimbsOK(e.in_gw) /\ LimbsOK(e.out_lo) /\ LimbsOK(e.out_gw)
                            /\ Octets(e.in_lo, e.in_gw) \in g.fin[e.sid]
@@ -89,7 +99,7 @@ EdgeClauses(cfg, g, e) ==
        (IF e.op = "recv" /\ e.typ = "stop" /\ e.sid \notin g.startAcc THEN {"StopAfterStart"} ELSE {})
   \cup (IF e.op = "recv" /\ e.typ = "stop" /\ e.sid \notin g.called THEN {"NoPhantomStop"} ELSE {})
   \cup (IF IsStop(e) /\ e.sid \in g.stopAck THEN {"NoDupStopWithinIncarnation"} ELSE {})
-  \cup (IF e.op = "recv" /\ ~IdentOK(cfg, e) THEN {"IdentifiersOwn"} ELSE {})
+  \cup (IF e.op = "recv" /\ (~IdentOK(cfg, e) \/ ~SameIdent(cfg, g, e)) THEN {"IdentifiersOwn"} ELSE {})
   \cup (IF e.op = "recv" /\ e.typ \in {"stop", "interim"} /\ ~CountersOK(cfg, g, e) THEN {"CountersExact"} ELSE {})
   \cup (IF e.op = "quiesce" /\ ~g.over /\ (\E s \in g.owed : s \notin g.stopAcc /\ s \notin RangeOf(e.durable))
         THEN {"EventuallyStopped"} ELSE {})
@@ -104,7 +114,8 @@ Step(cfg, g, e, obs) ==
     [] e.op = "ret" /\ e.call = "graceful" -> EndIncarnation(g)
     [] e.op = "crash" -> EndIncarnation(g)
     [] e.op = "boot" -> [g EXCEPT !.stopAck = {}]
-    [] e.op = "recv" /\ e.typ = "start" /\ e.sid \in Sess(cfg) -> [g EXCEPT !.startAcc = @ \cup {e.sid}]
+    [] e.op = "recv" /\ e.typ = "start" /\ e.sid \in Sess(cfg) ->
+         [g EXCEPT !.startAcc = @ \cup {e.sid}, !.attrs[e.sid] = IF e.sid \in g.startAcc THEN @ ELSE Carried(e)]
     [] e.op = "recv" /\ e.typ = "stop" /\ e.sid \in Sess(cfg) -> [g EXCEPT !.stopAcc = @ \cup {e.sid}, !.stopAck = @ \cup {e.sid}]
     [] e.op = "drop" /\ e.typ \in Kinds /\ e.sid \in Sess(cfg) ->
          [g EXCEPT !.refused[<<e.typ, e.sid>>] = @ + 1, !.over = @ \/ (g.refused[<<e.typ, e.sid>>] + 1 > cfg.budget)]
